@@ -67,8 +67,8 @@ fn main() {
                 .collect();
             let mut n = 0u64;
             for (si, (fam, cont, nn)) in specs.iter().enumerate() {
-                // batch runs of concurrent streams (n = 999) are long: half of the count
-                let cnt = if fam == "co" && *nn == 999 { std::cmp::max(1, count / 2) } else { count };
+                // batch runs of concurrent streams (n = 999) are long: half of the count, at most 600 (one TraceMon process folds all runs of a job)
+                let cnt = if fam == "co" && *nn == 999 { std::cmp::min(600, std::cmp::max(1, count / 2)) } else { count };
                 for i in 0..cnt {
                     let mut rng = gen::Rng::new(seed ^ ((si as u64) << 40) ^ (i.wrapping_mul(0x9E3779B97F4A7C15)));
                     let id = format!("r-{}-{}-{}-{}-{}-{}", exec::feat(), fam, cont, nn, seed, i);
